@@ -948,6 +948,11 @@ def _peel_loops(mod):
               and n.value.func.attr in {**_PEEL_RIGHT, **_PEEL_LEFT} and n.value.args
               and _const_str(n.value.args[0]) == "."):
         continue
+      inner = n
+      while not isinstance(inner, (ast.While, ast.For)):
+        inner = mod.parent[inner]
+      if inner is not loop:
+        continue   # belongs to a nested loop
       var = n.value.func.value.id
       t = n.targets[0]
       elts = [dotted(e) for e in t.elts] if isinstance(t, ast.Tuple) else None
@@ -957,7 +962,7 @@ def _peel_loops(mod):
   return out
 
 
-@rule("R6.6", "C06", floor=10)
+@rule("R6.6", "C06", floor=12)
 def r6_6(ctx):
   """Module-prefix searches over a dotted name try the longest prefix first.
 
